@@ -19,6 +19,16 @@ every Conv2d/ConvTranspose2d's (in, out, kernel, stride) in registration order,
 per-head output shapes or "raises".  The stateful pooling layer and the UNet
 encoder are also compared stand-alone on odd sizes (where the state matters).
 
+Also compared on every run: the predicates valid_config / in_domain / selectors (Coq == Python) on
+every generated call and on deliberately *invalid* configurations (one field spoiled; classification
+only, the implementation is not run on them), and Shapes.target_shape against the shapes the repo's
+target generators produce, on sizes that are multiples of the stride and on sizes that are not.
+
+Variants: /repo HEAD (current tree) has the head-rule repair 14997bd and the repairs F17 5fcfc16, F18
+9a2daa4, F41 f15d414; detect_fixed / detect_fx find out by replaying corpus witnesses and the matching
+model variant is evaluated.  Open findings: F42 and F44 (selectors below; their failures print
+KNOWN-FINDING while the `known:` lines exist, anything else is a VIOLATION).
+
 Oracle (independent of the Coq model): for a valid configuration and an input
 whose sides are multiples of the configured max_stride, `Model.forward` must
 return one output per head of shape (B, parts | 2*edges | 1, H/os, W/os), equal
@@ -50,7 +60,7 @@ CONVNEXT_ARCH = {"tiny": ([3, 3, 9, 3], [96, 192, 384, 768]), "small": ([3, 3, 2
                  "base": ([3, 3, 27, 3], [128, 256, 512, 1024]), "large": ([3, 3, 27, 3], [192, 384, 768, 1536])}
 SELECTORS = ["unet_no_middle_block", "unet_convs_per_block_lt_2", "head_stride_ge_max_stride",
              "patch_stride_lt_min_output_stride", "configured_max_stride_lt_effective",
-             "head_in_channels_rounding"]
+             "head_in_channels_rounding", "head_stride_gt_effective_max_stride"]
 
 
 # ------------------------------------------------------------------ generation
@@ -58,23 +68,30 @@ def pow2s(lo, hi):
     return [2 ** k for k in range(lo, hi + 1)]
 
 
-def gen_heads(rng, n_levels, eff_max, prefer_b_le=None):
+def gen_heads(rng, n_levels, eff_max, prefer_b_le=None, cap_top=None, p_top=0.06):
     """model type, parts, edges, backbone output stride, head strides (valid: powers of two,
-    backbone stride <= every head stride <= max stride)."""
+    backbone stride <= every head stride <= max(configured max stride, effective max stride)).
+    `cap_top` (log2) > n_levels: the configured max_stride exceeds what the encoder reaches
+    (ConvNeXt / Swin-T); head strides are then drawn up to it as well (finding F44)."""
     mt = rng.choice(MODEL_TYPES)
     parts, edges = rng.randint(1, 5), rng.randint(1, 4)
     top = n_levels                          # 2**top == effective max stride
+    hi = max(top, cap_top or 0)             # 2**hi == the largest valid head stride
     r = rng.random()
-    b = top if r < 0.06 else rng.randint(0, max(0, top - 1))
+    b = top if r < p_top else rng.randint(0, max(0, top - 1))
     if prefer_b_le is not None and rng.random() < 0.7:
         b = rng.randint(0, prefer_b_le)
+    if hi > top and rng.random() < 0.04:
+        b = rng.randint(top, hi)            # backbone output stride itself above the encoder's reach
     bos = 2 ** b
     def head_stride():
         t = rng.random()
         if t < 0.6:
             return bos
-        if t < 0.66:
-            return eff_max
+        if t < 0.6 + p_top:
+            return max(eff_max, bos)
+        if hi > top and t < 0.6 + p_top + 0.08:
+            return 2 ** rng.randint(max(b, top + 1), hi)
         return 2 ** rng.randint(b, max(b, top - 1))
     os_c = head_stride()
     os_p = head_stride() if mt == "bottomup" else os_c
@@ -100,17 +117,22 @@ def gen_inputs(rng, max_stride, eff, extra_bad):
     return seq
 
 
+NON_DYADIC_RATES = [1.1, 1.15, 1.2, 1.3, 1.4, 1.6, 1.7, 1.75, 1.9]
+
+
 def gen_unet(rng, light=False):
     n = rng.randint(1, 4 if light else 6)
     max_stride = 2 ** n
     r = rng.random()
-    rate = F(3, 2) if r < 0.42 else F(2) if r < 0.84 else F(1) if r < 0.9 else F(5, 4)
-    filters = rng.choice([2, 3, 4, 6, 8] if light else [2, 3, 4, 6, 8, 12, 16, 16, 24, 24, 32, 32, 64, 64])
+    rate = F(3, 2) if r < 0.38 else F(2) if r < 0.76 else F(1) if r < 0.82 else F(5, 4) if r < 0.88 else \
+        F(rng.choice(NON_DYADIC_RATES))     # the exact value of the double: the model computes with that rational
+    filters = rng.choice([2, 3, 4, 6, 8] if light else [2, 3, 4, 6, 8, 12, 16, 16, 24, 24, 32, 32, 64, 64, 100])
     s = rng.random()
     stem = None if s < 0.5 else 2 ** rng.randint(0 if s > 0.95 else 1, n)
     cpb = rng.choice([1, 2, 2, 2, 2, 3, 3])
     cfg = {"in_channels": rng.choice([1, 3]), "kernel_size": rng.choice([1, 3, 3, 5, 7]), "filters": filters,
-           "filters_rate": str(rate), "rate_as_float": rng.random() < 0.5, "max_stride": max_stride,
+           "filters_rate": str(rate), "rate_as_float": rng.random() < 0.5 or rate.denominator > 8,
+           "max_stride": max_stride,
            "convs_per_block": cpb, "stacks": rng.choice([1, 1, 2, 3]), "stem_stride": stem,
            "middle_block": rng.random() < 0.85, "up_interpolate": rng.random() < 0.5}
     mt, parts, edges, bos, os_c, os_p = gen_heads(rng, n, max_stride)
@@ -131,7 +153,10 @@ def gen_tv(rng, bb, light=False):
             mtype, arch = "custom", {"embed": c0, "depths": depths, "num_heads": [1, 2, 2, 4]}
     else:
         mtype, arch = rng.choice(sorted(CONVNEXT_TYPES if bb == "convnext" else SWINT_TYPES)), None
-    max_stride = 16 if (sps == 2 or rng.random() < 0.5) else 32        # documented: "always 16"
+    # documented: "always 16"; the encoder reaches eff = 8 * stem_patch_stride.  Configured values below
+    # (F42), equal to and above (F44 when a head uses it) the effective one are all drawn.
+    r = rng.random()
+    max_stride = eff if r < 0.45 else 16 if r < 0.7 else 32 if r < 0.9 else 64 if r < 0.96 else 8
     cfg = {"in_channels": rng.choice([1, 3]), "model_type": mtype, "arch": arch, "kernel_size": rng.choice([3, 3, 1, 5]),
            "filters_rate": "2", "rate_as_float": rng.random() < 0.5, "convs_per_block": 2,
            "up_interpolate": rng.random() < 0.5, "stem_patch_stride": sps, "max_stride": max_stride}
@@ -140,10 +165,85 @@ def gen_tv(rng, bb, light=False):
     else:
         cfg["patch_size"] = [4, 4]
         cfg["window_size"] = [7, 7]
-    mt, parts, edges, bos, os_c, os_p = gen_heads(rng, int(math.log2(eff)), eff, prefer_b_le=int(math.log2(sps)))
+    mt, parts, edges, bos, os_c, os_p = gen_heads(rng, int(math.log2(eff)), eff, prefer_b_le=int(math.log2(sps)),
+                                                  cap_top=int(math.log2(max_stride)), p_top=0.12)
     cfg["output_stride"] = bos
     return {"kind": "model", "bb": bb, "cfg": cfg, "mt": mt, "parts": parts, "edges": edges,
             "os_c": os_c, "os_p": os_p, "inputs": gen_inputs(rng, max_stride, eff, True)}
+
+
+def gen_invalid(rng):
+    """A configuration that is NOT valid (one field of a valid one spoiled): only its classification
+    (Shapes.valid_config / in_domain == the harness's Python predicates) is compared -- the implementation
+    is not run on it (kernel 0 / no channels pass on the meta device and raise on the CPU)."""
+    bb = rng.choice(["unet", "unet", "convnext", "swint"])
+    c = gen_unet(rng) if bb == "unet" else gen_tv(rng, bb, light=rng.random() < 0.6)
+    cfg = c["cfg"]
+    muts = ["kernel0", "inch0", "parts0", "edges0", "ms_np2", "os_np2", "os_gt_head", "head_gt_max", "head_np2"]
+    muts += ["cpb0", "filters0", "rate_lt1", "ms1", "stem_gt", "stem_np2"] if bb == "unet" else \
+        ["rate32", "sps", "stemk", "arch_ratio", "arch_len", "c0_mod4"] + (["nh"] if bb == "swint" else [])
+    m = rng.choice(muts)
+    if m == "kernel0":
+        cfg["kernel_size"] = rng.choice([0, -1])
+    elif m == "inch0":
+        cfg["in_channels"] = rng.choice([0, -3])
+    elif m == "parts0":
+        c["parts"] = rng.choice([0, -2])
+    elif m == "edges0":
+        c["mt"], c["edges"], c["os_p"] = "bottomup", 0, c["os_c"]
+    elif m == "ms_np2":
+        cfg["max_stride"] = rng.choice([12, 24, 48])
+    elif m == "os_np2":
+        cfg["output_stride"] = 3
+    elif m == "os_gt_head":
+        cfg["output_stride"] = 2 * min(head_strides(c))
+    elif m == "head_gt_max":
+        c["os_c"] = 2 * max(cfg["max_stride"], eff_max_stride(c))
+    elif m == "head_np2":
+        c["os_c"] = rng.choice([3, 6, 12])
+    elif m == "cpb0":
+        cfg["convs_per_block"] = 0
+    elif m == "filters0":
+        cfg["filters"] = 0
+    elif m == "rate_lt1":
+        cfg["filters_rate"], cfg["rate_as_float"] = "1/2", True
+    elif m == "ms1":
+        cfg["max_stride"] = 1
+    elif m == "stem_gt":
+        cfg["stem_stride"] = 2 * cfg["max_stride"]
+    elif m == "stem_np2":
+        cfg["stem_stride"] = 3
+    elif m == "rate32":
+        cfg["filters_rate"], cfg["rate_as_float"] = "3/2", True
+    elif m == "sps":
+        cfg["stem_patch_stride"] = rng.choice([1, 3, 8])
+    elif m == "stemk":
+        if bb == "convnext":
+            cfg["stem_patch_kernel"] = rng.choice([2, 3, 7])
+        else:
+            cfg["patch_size"] = [2, 2]
+    else:
+        cfg["model_type"] = "custom"
+        if bb == "convnext":
+            arch = {"depths": [1, 2, 1, 1], "channels": [8, 16, 32, 64]}
+            if m == "arch_ratio":
+                arch["channels"][rng.randint(1, 3)] += 8
+            elif m == "arch_len":
+                arch = {"depths": [1, 2, 1], "channels": [8, 16, 32]}
+            else:
+                arch["channels"] = [6, 12, 24, 48]
+        else:
+            arch = {"embed": 8, "depths": [1, 2, 1, 1], "num_heads": [1, 2, 2, 4]}
+            if m == "arch_ratio" or m == "nh":
+                arch["num_heads"] = [1, 2, 3, 4]
+            elif m == "arch_len":
+                arch = {"embed": 8, "depths": [1, 2, 1], "num_heads": [1, 2, 2]}
+            else:
+                arch["embed"] = 6
+        cfg["arch"] = arch
+    c["inputs"] = [[64, 64], [48, 36]]
+    c["classify_only"] = m
+    return c
 
 
 def grid_unet():
@@ -220,8 +320,9 @@ def term(c, fixed):
         inner = cfg_term(c)
         assert inner.startswith("(CfgUNet ")
         return f"CEncoder {fx_term()} {inner[len('(CfgUNet '):-1]} {pairs(c['inputs'])}"
-    return (f"CModel {core.cbool(fixed)} {fx_term()} {cfg_term(c)} {MT_COQ[c['mt']]} {c['parts']} {c['edges']} "
-            f"{c['os_c']} {c['os_p']} {pairs(c['inputs'])}")
+    z = lambda n: f"({n})" if n < 0 else str(n)
+    return (f"CModel {core.cbool(fixed)} {fx_term()} {cfg_term(c)} {MT_COQ[c['mt']]} {z(c['parts'])} {z(c['edges'])} "
+            f"{z(c['os_c'])} {z(c['os_p'])} {pairs(c['inputs'])}")
 
 
 # ------------------------------------------------------------------ implementation
@@ -230,6 +331,29 @@ def rate_value(cfg):
     if f.denominator == 1 and not cfg.get("rate_as_float"):
         return int(f)
     return float(f)
+
+
+def float_sites_agree(c):
+    """The model evaluates int(filters * rate**k), x // rate in exact rationals (rate = the exact value
+    of the double); the code in floats.  True iff every such site of this configuration gives the same
+    integer both ways (always, for dyadic rates with small numerators).  Configurations where a float
+    product rounds across an integer are outside the model's arithmetic: correspondence is skipped for
+    them (counted), the oracle still runs."""
+    if c["bb"] != "unet":
+        return True
+    cfg = c["cfg"]
+    r, q, filt = rate_value(cfg), F(cfg["filters_rate"]), cfg["filters"]
+    n = int(math.log2(cfg["max_stride"])) if cfg["max_stride"] >= 1 else 0
+    for k in range(-(n + 2), n + 2):
+        try:
+            a = int(filt * (r ** k))
+        except (OverflowError, ZeroDivisionError):
+            return False
+        if a != _trunc(F(filt) * q ** k):
+            return False
+        if int(a // r) != math.floor(F(a) / q):
+            return False
+    return True
 
 
 def backbone_conf(c, OmegaConf):
@@ -386,6 +510,11 @@ def valid_config(c):
     torchvision-derived backbones the channel ratio of the encoder (2) is the filters_rate."""
     cfg = c["cfg"]
     hs = head_strides(c)
+    # sizes the constructors need positive (Shapes.positive_sizes): kernel_size 0, in_channels <= 0 or a
+    # head without channels make torch raise on the CPU (the meta device does not notice kernel 0 / 0 channels)
+    if not (cfg["kernel_size"] > 0 and cfg["in_channels"] > 0 and c["parts"] > 0
+            and (c["mt"] != "bottomup" or c["edges"] > 0)):
+        return False
     if not all(is_pow2(s) for s in hs + [cfg["output_stride"], cfg["max_stride"]]):
         return False
     if cfg["output_stride"] > min(hs) or max(hs) > max(cfg["max_stride"], eff_max_stride(c)):
@@ -465,13 +594,15 @@ def unet_head_in_mismatch(c):
 
 
 SELECTOR_ORDER = ["unet_no_middle_block", "unet_convs_per_block_lt_2", "patch_stride_lt_min_output_stride",
-                  "head_stride_ge_max_stride", "configured_max_stride_lt_effective", "head_in_channels_rounding"]
-#                  = Shapes.sel_vector:  F17, F18, F20, F41, F42, F43
+                  "head_stride_ge_max_stride", "configured_max_stride_lt_effective", "head_in_channels_rounding",
+                  "head_stride_gt_effective_max_stride"]
+#                  = Shapes.sel_vector:  F17, F18, F20, F41, F42, F43, F44
 
 
 def selector_vector(c, H, W):
-    """The six known-finding selectors (same order as Shapes.sel_vector), each evaluated
-    independently of the others and of the Coq model."""
+    """The seven finding selectors (same order as Shapes.sel_vector), each evaluated
+    independently of the others and of the Coq model.  F17, F18, F20, F41, F43 are fixed in /repo
+    (historic: a detected repair withdraws the excuse); F42 and F44 are open."""
     cfg, bb = c["cfg"], c["bb"]
     eff = eff_max_stride(c)
     return [
@@ -481,6 +612,7 @@ def selector_vector(c, H, W):
         any(s >= eff for s in head_strides(c)),
         bb != "unet" and cfg["max_stride"] < eff and not (H % eff == 0 and W % eff == 0),
         bb == "unet" and unet_head_in_mismatch(c),
+        bb != "unet" and any(s > eff for s in head_strides(c)),
     ]
 
 
@@ -492,13 +624,16 @@ def selector_of(c, H, W):
     With the repaired head in_channels rule (F20/F43 fixed in the code under test) those two
     selectors are not offered: a failure is attributed to one of the remaining ones or to none."""
     repaired = set()
+    vec = selector_vector(c, H, W)
+    if vec[6]:          # F44 fails whatever the flags are: attribute it before its historic superset F41
+        return SELECTOR_ORDER[6]
     if HEAD_RULE_REPAIRED["on"]:
         repaired |= {"patch_stride_lt_min_output_stride", "head_in_channels_rounding"}
     for k, name in (("fx17", "unet_no_middle_block"), ("fx18", "unet_convs_per_block_lt_2"),
                     ("fx41", "head_stride_ge_max_stride"), ("fx42", "configured_max_stride_lt_effective")):
         if FX[k]:
             repaired.add(name)
-    for name, on in zip(SELECTOR_ORDER, selector_vector(c, H, W)):
+    for name, on in zip(SELECTOR_ORDER, vec):
         if on and name not in repaired:
             return name
     return None
@@ -652,8 +787,8 @@ def load_corpus():
 
 
 def detect_fixed(mods):
-    """Which head in_channels rule does the code have?  Run the F43 witness: the pinned
-    tree computes 181 for a 182-channel block; the proposed repair reads the block."""
+    """Which head in_channels rule does the code have?  Run the F43 witness: the pinned tree
+    (before 14997bd) computes 181 for a 182-channel block; the current tree reads the block."""
     w = {"kind": "model", "bb": "unet", "mt": "bottomup", "parts": 3, "edges": 2, "os_c": 16, "os_p": 32,
          "inputs": [], "cfg": {"in_channels": 1, "kernel_size": 3, "filters": 24, "filters_rate": "3/2",
                                "rate_as_float": True, "max_stride": 64, "convs_per_block": 2, "stacks": 1,
@@ -664,9 +799,10 @@ def detect_fixed(mods):
 
 
 def detect_fx(mods):
-    """Which of the proposed repairs (F17, F18, F41, F42) does the code under test have?  Replays the
-    four corpus witnesses; a witness that now meets the contract switches the model to the repaired
-    variant (Shapes.fixes) and withdraws the selector as an excuse."""
+    """Which of the repairs F17 (5fcfc16), F18 (9a2daa4), F41 (f15d414) -- all in /repo HEAD -- and F42
+    (proposed only) does the code under test have?  Replays the four corpus witnesses; a witness that
+    meets the contract switches the model to the repaired variant (Shapes.fixes) and withdraws the
+    selector as an excuse, so a regression is reported as a VIOLATION."""
     fx = {"fx17": False, "fx18": False, "fx41": False, "fx42": False}
     by = {"F17": "fx17", "F18": "fx18", "F41": "fx41"}
     d = core.CORPUS / "C14"
@@ -705,7 +841,7 @@ def check(run: core.Run) -> int:
     fixed = detect_fixed(mods)
     HEAD_RULE_REPAIRED["on"] = fixed
     FX.update(detect_fx(mods))
-    run.notes.append("proposed repairs detected in the code (corpus witnesses replayed): " +
+    run.notes.append("repairs detected in the code under test (corpus witnesses replayed; F17/F18/F41 are in /repo HEAD, F42 is proposed only): " +
                      ", ".join(f"{k}={'yes' if v else 'no'}" for k, v in sorted(FX.items())))
     run.notes.append(f"head in_channels rule detected in the code: {'repaired (reads the decoder block)' if fixed else 'pinned (recomputed from max_channels)'}")
 
@@ -735,18 +871,39 @@ def check(run: core.Run) -> int:
 
     model = core.coq_eval_sharded(PREAMBLE, [term(c, fixed) for c in cases], "run", RENDER,
                                   shard=120 if thorough else 40, jobs=12)
-    mcases = [c for c in cases if c["kind"] == "model" and c["inputs"]]
-    classes = core.coq_eval_sharded(PREAMBLE, [term(c, fixed) for c in mcases], "classify", "rclassify",
+    invalid = [gen_invalid(rng) for _ in range(200 if thorough else 40)]     # classification only
+    mcases = [c for c in cases if c["kind"] == "model" and c["inputs"]] + invalid
+    classes = core.coq_eval_sharded(PREAMBLE, [term(c, fixed) for c in mcases], "classify_targets", "rclassify_targets",
                                     shard=200 if thorough else 60, jobs=12)
-    sel_diff = []
+    sel_diff, tgt_diff, n_tgt, n_tgt_ceil, n_invalid_seen = [], [], 0, 0, 0
+    tcache0 = {}
     for c, cl in zip(mcases, classes):
-        for (H, W), (v, (dom, sels)) in zip(c["inputs"], cl):
-            mine = (valid_config(c), in_domain(c, H, W), selector_vector(c, H, W))
+        for (H, W), ((v, (dom, sels)), tshapes) in zip(c["inputs"], cl):
+            mine = (valid_config(c), in_domain(c, H, W), selector_vector(c, H, W) if valid_config(c) else None)
             # selectors are only meaningful (and only compared) on valid configurations
             if (v, dom) != mine[:2] or (v and sels != mine[2]):
                 sel_diff.append(f"input {H}x{W}: coq {(v, dom, sels)} python {mine} case {case_key(c)[:400]}")
+            n_invalid_seen += (not v)
+            if v and mine[0]:
+                # Shapes.target_shape == the shapes of the targets the repo's generators produce, on every
+                # generated size (multiples of the stride or not: ceil, not floor)
+                key = (c["mt"], c["parts"], c["edges"], c["os_c"], c["os_p"], H, W)
+                if key not in tcache0:
+                    tcache0[key] = target_shapes(c, H, W, mods)
+                n_tgt += 1
+                n_tgt_ceil += any(H % s or W % s for s in head_strides(c))
+                if [list(t) for t in tshapes] != tcache0[key]:
+                    tgt_diff.append(f"input {H}x{W}: Shapes.target_shape {tshapes} generate_* {tcache0[key]} case {case_key(c)[:300]}")
     run.obligation("validity / domain / selector predicates: Shapes.{valid_config,in_domain,sel_vector} (Coq) == harness (Python) "
-                   "on every generated call", not sel_diff, "; ".join(sel_diff[:3]))
+                   "on every generated call, invalid configurations (one field spoiled) included", not sel_diff, "; ".join(sel_diff[:3]))
+    run.obligation("target shapes: Shapes.target_shape (Coq) == shapes of generate_confmaps / generate_multiconfmaps / generate_pafs "
+                   "on every generated (valid head configuration, input size), sizes that are not multiples of the stride included",
+                   not tgt_diff, "; ".join(tgt_diff[:3]))
+    for d_ in (sel_diff + tgt_diff)[:5]:
+        run.proof_broken.append("C14 predicates / target shapes: " + d_)
+    run.coverage["target_shape_comparisons"] = {"calls": n_tgt, "with_a_side_not_multiple_of_a_head_stride": n_tgt_ceil}
+    run.coverage["invalid_configurations_classified"] = {"generated": len(invalid), "calls_classified_invalid": n_invalid_seen,
+                                                         "kinds": sorted({c["classify_only"] for c in invalid})}
     disagree = 0
     dist = {}
     tcache = {}
@@ -754,6 +911,7 @@ def check(run: core.Run) -> int:
     in_domain_calls = 0
     passing_for_numeric = []
     cpu_runs, meta_cpu_diff = 0, []
+    float_skipped = []
     for idx, (c, mj) in enumerate(zip(cases, model)):
         mres = canon_model(mj)
         kind = c["kind"]
@@ -771,6 +929,11 @@ def check(run: core.Run) -> int:
                     meta_cpu_diff.append(f"meta {ires['calls']} cpu {cres['calls']} case {case_key(c)[:500]}")
                     ires = cres
         diff = compare(mres, ires)
+        if diff and kind in ("model", "encoder") and not float_sites_agree(c):
+            float_skipped.append(f"{diff} :: rate {rate_value(c['cfg'])!r} filters {c['cfg']['filters']}")
+            diff = None                  # outside the model's exact-rational idealisation (see float_sites_agree)
+        if kind in ("model", "encoder") and F(c["cfg"]["filters_rate"]).denominator > 8:
+            dist["non_dyadic_rate"] = dist.get("non_dyadic_rate", 0) + 1
         nontrivial = kind != "model" or (len(c["inputs"]) >= 1)
         run.case(c, nontrivial)
         failing_here = False
@@ -806,6 +969,11 @@ def check(run: core.Run) -> int:
     run.obligation("meta-device runs agree with CPU runs (construction, conv channels, output shapes / raises) on every light case",
                    not meta_cpu_diff, "; ".join(meta_cpu_diff[:3]))
     run.coverage["cpu_structural_runs"] = cpu_runs
+    run.coverage["float_vs_exact_rate_arithmetic"] = {
+        "rule": "non-dyadic filters_rate (1.1, 1.15, ...): the Coq term carries the exact rational value of the double; "
+                "cases where int(filters*rate**k) or x//rate differ between float and exact evaluation at some site are "
+                "outside the model (correspondence skipped, oracle still evaluated)",
+        "skipped": len(float_skipped), "examples": float_skipped[:3]}
     # CPU runs with real weights: shapes again + determinism / history / batch independence
     light = [c for c in passing_for_numeric if is_light(c)]
     want_n = {"unet": 40, "convnext": 12, "swint": 12} if thorough else {"unet": 8, "convnext": 3, "swint": 3}
@@ -857,11 +1025,18 @@ def check(run: core.Run) -> int:
     run.trusted += [
         "torch meta-device shape propagation and error checks agree with the CPU kernels (re-checked on the CPU subset every run)",
         "torch/torchvision layers in eval(): deterministic, no cross-sample coupling (oracle contract; measured on the CPU subset)",
-        "float evaluation of int(filters*rate**k), round(), // agrees with exact rational arithmetic on the generated configurations (compared every run)",
+        "float evaluation of int(filters*rate**k), // agrees with exact rational arithmetic (rate = exact value of the double) on the "
+        "generated configurations, non-dyadic rates such as 1.15 included (compared every run; sites where a float product rounds "
+        "across an integer are detected by the harness and excluded: coverage.float_vs_exact_rate_arithmetic)",
+        "meta == CPU holds on VALID configurations only: for kernel_size 0 or a head with 0 channels the meta run passes while the CPU "
+        "kernels raise; such configurations are not valid (Shapes.positive_sizes) and the implementation is not run on them",
     ]
     run.assumptions += ["valid configuration = accepted by config/model_config.py classes and documented ranges: strides powers "
                         "of two, backbone output_stride <= head strides <= max_stride, UNet filters_rate >= 1, "
-                        "ConvNeXt/Swin-T filters_rate = 2 (their encoders double channels), stem_patch_stride in {2,4}, stem kernel 4",
+                        "ConvNeXt/Swin-T filters_rate = 2 (their encoders double channels), stem_patch_stride in {2,4}, stem kernel / patch 4, "
+                        "exactly four stages whose widths double (the config classes accept other values: outside the property as checked); "
+                        "kernel_size, in_channels, number of parts / edges positive; head strides <= max(configured max_stride, the stride the "
+                        "encoder reaches) -- a ConvNeXt / Swin-T head above the encoder's reach is valid and fails: finding F44",
                         "inputs: sides are positive multiples of the configured max_stride"]
     return run.finish()
 
